@@ -1807,7 +1807,7 @@ theorem anteOK_spec {s : State} {t : Tx} {sim : Bool} (h : anteOK s t sim = true
   · simp at hm
   · rename_i verif hverif
     simp only [Bool.and_eq_true, decide_eq_true_eq, beq_iff_eq] at hm
-    obtain ⟨⟨⟨hv, _⟩, _⟩, hbal⟩ := hm
+    obtain ⟨⟨⟨⟨hv, _⟩, _⟩, _⟩, hbal⟩ := hm
     refine ⟨?_, by omega⟩
     split at hverif
     · exact ⟨_, lookup_mem hverif, hv⟩
